@@ -299,7 +299,7 @@ def _registry():
         (K + "dictionary_based/_tde.py", "IndividualTDE"))
     # p_threshold=1: no chi-squared feature removal at fit (on these tiny panels it can remove every feature)
     add("muse", C, lambda p: MUSE(**p), [{"random_state": 1, "p_threshold": 1.0}], (K + "dictionary_based/_muse.py", "MUSE"), uni=False, slow=True, minL=16)
-    add("weasel", C, lambda p: WEASEL(**p), [{"random_state": 1, "p_threshold": 1.0}],   # as for MUSE: no chi2 removal
+    add("weasel", C, lambda p: WEASEL(**p), [{"random_state": 1, "p_threshold": 0.999}],   # keep nearly every feature (p_threshold=1 makes WEASEL.fit return None from its worker: TypeError)
          (K + "dictionary_based/_weasel.py", "WEASEL"), slow=True, minL=16)
     add("colens", C, lambda p: ColumnEnsembleClassifier([
         ("a", TimeSeriesForestClassifier(n_estimators=3, random_state=1), [0]),
